@@ -21,7 +21,7 @@ HARNESSES = [
 ]
 for (s_, x_, l1, l2) in [(s_, x_, l1, l2) for s_ in (0, 1, 3) for x_ in (0, 1) for l1 in (0, 1, 2) for l2 in (1, 3)]:
     HARNESSES.append(dict(name='feed_s%d_x%d_l%d_%d' % (s_, x_, l1, l2), units=['parser'], file='c04_parser.c',
-       defs={'H_FEED': None, 'S': 4, 'SFIX': s_, 'XFIX': x_, 'L1FIX': l1, 'L2FIX': l2}, unwind=8, witness=(s_ == 1 and x_ == 0 and l1 == 2 and l2 == 1),
+       defs={'H_FEED': None, 'S': 4, 'SFIX': s_, 'XFIX': x_, 'L1FIX': l1, 'L2FIX': l2}, unwind=8, mem_est=(10 if l2 == 3 else 3), memgb=16, witness=(s_ == 1 and x_ == 0 and l1 == 2 and l2 == 1),
        tiers=('quick', 'thorough') if (x_ == 0 and l2 == 1) or (s_ == 3 and l1 == 2) else ('thorough',),
        bound='buffer of %d bytes with %d spare capacity, any read offset, any maxSize (64-bit), feeds of %d then %d bytes, all contents' % (s_, x_, l1, l2),
        desc='(a) ArrayStreamBuf::feed via ParserBase::feed: a feed is refused iff accumulated + len > maxSize (any 64-bit maxSize), a refused feed changes nothing, an accepted one appends in order'))
